@@ -419,12 +419,32 @@ func init() {
 		}
 		return &Str{Kind: sBytes, B: out}, true
 	})
+	const spaceSet = "\t\n\v\f\r \u0085\u00A0"
 	reg("strings.TrimSpace", func(in *Interp, fn *ssa.Function, args []value) (value, bool) {
 		s := args[0].(*Str)
 		if c, ok := s.Concrete(); ok {
 			return lit(strings.TrimSpace(c)), true
 		}
+		if s.Kind != sBytes {
+			if t, ok := in.trimStructured(s, spaceSet, true); ok {
+				if u, ok := in.trimStructured(t, spaceSet, false); ok {
+					return u, true
+				}
+			}
+		}
 		panic(engineErr("TrimSpace on symbolic string"))
+	})
+	reg("bytes.TrimSpace", func(in *Interp, fn *ssa.Function, args []value) (value, bool) {
+		sl := args[0].(*Slice)
+		if sl.Ghost == nil {
+			return nil, false // byte-precise: run the real code
+		}
+		if t, ok := in.trimStructured(sl.Ghost, spaceSet, true); ok {
+			if u, ok := in.trimStructured(t, spaceSet, false); ok {
+				return sliceOfStr(u), true
+			}
+		}
+		panic(engineErr("bytes.TrimSpace on %s", sl.Ghost.Key()))
 	})
 	reg("bytes.Equal", func(in *Interp, fn *ssa.Function, args []value) (value, bool) {
 		return in.strEq(strOfSlice(in, args[0].(*Slice)), strOfSlice(in, args[1].(*Slice))), true
@@ -567,4 +587,82 @@ func (in *Interp) replaceAllTokens(s, old, nw *Str) *Str {
 func asciiLower(b *Term) *Term {
 	isUp := And(ULe(BVu(8, 'A'), b), ULe(b, BVu(8, 'Z')))
 	return Ite(isUp, BOr(b, BVu(8, 0x20)), b)
+}
+
+// trimStructured: strings.TrimRight / TrimLeft on structured strings with a concrete cutset. Literal parts are trimmed
+// natively; an opaque part ends the trimming when it cannot contain a cutset character (encoder outputs by their
+// alphabet, atoms as letter strings).
+func (in *Interp) trimStructured(s *Str, cut string, right bool) (*Str, bool) {
+	ps := append([]*Str{}, parts(s)...)
+	for len(ps) > 0 {
+		k := 0
+		if right {
+			k = len(ps) - 1
+		}
+		p := ps[k]
+		if c, ok := p.Concrete(); ok {
+			var t string
+			if right {
+				t = strings.TrimRight(c, cut)
+			} else {
+				t = strings.TrimLeft(c, cut)
+			}
+			if t != "" {
+				ps[k] = lit(t)
+				break
+			}
+			if right {
+				ps = ps[:k]
+			} else {
+				ps = ps[1:]
+			}
+			continue
+		}
+		if p.Kind == sAtom && !strings.ContainsAny(cut, "abcdefghijklmnopqrstuvwxyzABCDEFGHIJKLMNOPQRSTUVWXYZ") {
+			in.noteAtomFree(p, cut)
+			break
+		}
+		if opaqueFreeOf(p, cut) {
+			break
+		}
+		if p.Kind == sGhost && (p.G.Ctor == "json" || p.G.Ctor == "canon") && !strings.ContainsAny(cut, "{}[]\"0123456789-truefalsn") {
+			break // encoder output: a JSON text starts and ends with a value character
+		}
+		return nil, false
+	}
+	return concatStr(ps...), true
+}
+
+func init() {
+	trim := func(right bool) summaryFn {
+		return func(in *Interp, fn *ssa.Function, args []value) (value, bool) {
+			s := args[0].(*Str)
+			cut, ok := args[1].(*Str).Concrete()
+			if !ok {
+				return nil, false
+			}
+			if _, isConc := s.Concrete(); isConc || s.Kind == sBytes {
+				return nil, false // byte-precise: run the real code
+			}
+			if t, ok := in.trimStructured(s, cut, right); ok {
+				return t, true
+			}
+			panic(engineErr("Trim of %s by %q: cannot decide", s.Key(), cut))
+		}
+	}
+	reg("strings.TrimRight", trim(true))
+	reg("strings.TrimLeft", trim(false))
+	reg("strings.Trim", func(in *Interp, fn *ssa.Function, args []value) (value, bool) {
+		s := args[0].(*Str)
+		cut, ok := args[1].(*Str).Concrete()
+		if !ok || s.Kind == sBytes {
+			return nil, false
+		}
+		if t, ok := in.trimStructured(s, cut, true); ok {
+			if u, ok := in.trimStructured(t, cut, false); ok {
+				return u, true
+			}
+		}
+		panic(engineErr("Trim of %s by %q: cannot decide", s.Key(), cut))
+	})
 }
